@@ -348,6 +348,78 @@ CHECKS["C06"] = {
   "technique": "Coq proof (Hoare-style lemmas per function, induction over loops and ACK processing) + differential correspondence + extracted predicates on impl traces",
 }
 
+CHECKS["C07"] = {
+  "text": "Connection level, about the Gallina model of VirtualSocket::poll (Conn/VSock.v), for EVERY state and event (no bound). "
+          "Theorems (Props/C07.v): c07_no_pending_immediate_ack - a poll that ran to its end (Pending, transport writable) leaves "
+          "consumed_but_unacked_bytes < 2*mss, immediate_ack_to_transmit = false and should_send_window_update = false: every "
+          "immediate-ACK trigger (>= 2*mss bytes, out-of-order / gap fill / duplicate / FIN via usize::MAX, window zero<->non-zero) is "
+          "served in the same poll, without a clock advance; needs mss >= 1, proved invariant (c07_mss_pos_new / c07_mss_pos_step). "
+          "c07_delayed_ack_armed - after such a poll, unacknowledged consumed bytes imply the delayed-ACK timer is armed, expires within "
+          "40 ms of that poll, and (nothing sent in the poll) not later than it did before (restart=false never moves it later). "
+          "c07_delayed_ack_fires / c07_delayed_ack_fires_poll - at/after the expiry maybe_send_ack sends an ST_STATE carrying "
+          "ack_nr = last_consumed, or the transport blocks, or nothing was owed and the timer is turned off; a completed poll at/after the "
+          "expiry emits a packet or nothing was owed. The extracted predicates c07_immediate_ok, c07_delayed_ok, c07_fires_ok are proved "
+          "true of every model trace (c07_*_model) and evaluated on the implementation's traces. PARTIAL: c07_silent_when_idle is not "
+          "proved (predicate c07_idle_silent_partial is only monitored on implementation traces); the trigger-side lemmas about "
+          "process_incoming_message (duplicate / FIN / out-of-order force usize::MAX and send an ACK right there) are not stated as "
+          "theorems, they are covered by the differential run; the window-update trigger is not observable on the fingerprint.",
+  "design_ref": "DESIGN.md section 6 C07",
+  "note": "Trusted: as C16 plus the vsock harness/hook snapshot. No axioms. Constants ACK_DELAY = 40 ms and IMMEDIATE_ACK_EVERY_RMSS = 2 "
+          "are re-read from the compiled crate on every run; the predicates carry them as literals. Assumed-and-monitored "
+          "(c07_pre_monitor on every implementation trace): consumed_but_unacked_bytes > 0 implies last_consumed > last_sent_ack_nr in "
+          "the tolerance-limited comparison; it is NOT an invariant of the model (an ack number more than 1024 ahead across the u16 wrap, "
+          "D4, makes the expired delayed-ACK timer turn itself off with bytes unacknowledged).",
+  "technique": "Coq proof (Hoare-style frame lemmas through every function of poll, inversion of the poll combinators) + "
+               "differential correspondence model vs impl + extracted predicates on impl traces",
+}
+
+CHECKS["C18"] = {
+  "text": "Connection level, about segment_loop / split_tx_queue_into_segments of the Gallina model of VirtualSocket (Conn/VSock.v), for "
+          "every state (induction over the loop). Theorems (Props/C18.v): c18_no_partial_while_unacked - with Nagle on the loop appends "
+          "exactly the logged segments and every segment cut while the table was non-empty has size = min(size offered by "
+          "next_segment_size, remaining remote window); a smaller one is cut only with an empty table (c18_log_faithful ties the log to "
+          "what the loop saw: offer >= mss, in-flight = table non-empty). c18_drain_sends - table empty, data buffered, window open, no "
+          "peer FIN: split_tx_queue_into_segments enqueues at least one segment (Nagle on or off). c18_nagle_predicate_split - the "
+          "extracted predicate c18_nagle_ok (a new segment with a predecessor in the table is >= the mss before the poll, or the bytes "
+          "segmented up to it use up the peer's window) holds between the states before/after split_tx_queue_into_segments. PARTIAL: "
+          "the lift of that predicate from split_tx_queue_into_segments to a whole poll (the other functions only remove or re-flag "
+          "segments, messages are processed before segmentation) is not proved, it is checked on every implementation trace and by the "
+          "differential run; c18_off_all_segmented (Nagle off) is not proved; no whole-poll predicate for the drain clause.",
+  "design_ref": "DESIGN.md section 6 C18",
+  "note": "Trusted: as C16 plus the vsock harness/hook snapshot. No axioms. Assumed-and-monitored (c18_pre_monitor): every segment "
+          "starts below the table's next-byte offset. Polls that start with an undelivered MTU probe as newest segment are not judged "
+          "(the probe may be popped and its bytes re-cut); with an MTU probe outstanding the code segments nothing further (boundary B4).",
+  "technique": "Coq proof (induction over the segmentation loop with a logging twin of the loop) + differential correspondence + "
+               "extracted predicate on impl traces",
+}
+
+PENDING_C14 = {'design_ref': 'DESIGN.md section 6 C14',
+ 'note': 'Trusted: as C16. No axioms. Header constants re-read from the compiled crate on every run. The '
+         'search and ceiling checks of the predicate apply only while the op discipline (outcomes for sizes '
+         'handed out, consistent with some P; no payload above the ceiling) holds on the observed trace; '
+         'well-formedness, probe-midpoint and cooldown checks apply always. Partial: see text.',
+ 'technique': 'Coq proof (induction over op lists, lia over div/mod 2^16) + differential correspondence '
+              'model vs impl',
+ 'text': 'Partial: this check covers the path-MTU SEARCH and the u16 SIZE ARITHMETIC of src/mtu.rs '
+         '(SegmentSizes). Theorems over every op list of the Gallina model (induction, no bound): on a path '
+         'delivering exactly the payload sizes <= P, min_ss <= P <= max_ss is invariant; each probe outcome '
+         'at least halves max_ss - min_ss and after ceil(log2(max_ss0 - min_ss0)) + 1 outcomes (16 for any '
+         'u16 interval) min_ss = max_ss = P and is_probing = false; next_segment_size hands out mss or the '
+         'probe midpoint, never above max_ss, above mss only at cooldown 0; min_ss <= max_ss <= 65535 always '
+         'and next_probe overflows u16 exactly at min_ss = max_ss = 65535 (refutation witness: '
+         'on_payload_delivered(65535)); max_ss and every size handed out stay <= the ceiling implied by the '
+         'configured link MTU PROVIDED no on_payload_delivered(n) with n above that ceiling occurs - the '
+         'code feeds it the size of payloads received from the peer, and a refutation witness (new(1500, '
+         "ipv4); delivered 5000 gives mss 5000 > 1452) records that the unconditional clause 'whatever sizes "
+         "the peer uses' is FALSE of this component (D3; reproduced on the real code by the mtu_d3 cases, "
+         'reported, not yet counted as a violation or a known finding). Tied to the real SegmentSizes '
+         '(public API) by differential runs: scripted binary searches for link MTUs 0..1500 x both families '
+         'x boundary and random P, structured and hostile op lists (usize values that truncate as u16); the '
+         'extracted predicates c14_ok / c14_search_ok, proved true of every model trace, are evaluated on '
+         "the implementation's own traces. NOT covered here (connection level, later): sizes of emitted "
+         'datagrams, at most one outstanding probe and it is the newest segment, data intact on a '
+         'black-holing path (D1, KF1).'}
+
 ALL = ["C%02d" % i for i in range(1, 20)]
 NOT_APPLICABLE = {p: "check not built yet at this commit (planned: DESIGN.md section 6); not claimed"
                   for p in ALL if p not in CHECKS}
